@@ -120,7 +120,7 @@ PROPS = {
                             "C06_no_cutoff_no_date_filter", "C06_error_flag", "C06_cutoff_strict",
                             "C06_no_creation_date_is_old", "C06_spec_okb_correct",
                             "C06_order_free_equal_rank_refuted", "C06_registry_lockfile_respected",
-                            "C06_registry_resolved_not_below_lockfile", "C06_registry_judgement_holds"],
+                            "C06_registry_resolved_not_below_lockfile", "C06_registry_judgement_holds", "C06_registry_selection_in_date"],
         "rule": ("selection-function level, direct calls to the public deno_graph::packages API. (a) EVERY registry "
                  "info made of <= 3 of the versions {0.9.0, 1.0.0, 1.1.0, 2.0.0-beta.1, 2.0.0}, each yanked or not and "
                  "created never/before/at/after the cutoff (5801 infos), x 3 option sets (no date / date / date with "
